@@ -79,7 +79,17 @@ def e_values(rng, lvl, quick, first):
         else:
             vals = {3, fmax, 5 + rng.below(fmax - 6)} if first else {fmax - 1, 2 + rng.below(8)}
     else:
-        vals = set(range(2, fmax + 1)) if first else {fmax, fmax - 1, 2, 3, 4, 5, 8, 16, 5 + rng.below(fmax - 6), 5 + rng.below(fmax - 6)}
+        if first and lvl == 1:
+            vals = set(range(2, fmax + 1))                      # every e at level 1
+        elif first:
+            # levels 3, 5: every small e, every e around the 64-bit limb boundaries, the top of the range, and a random sample
+            vals = set(range(2, 25)) | {fmax, fmax - 1, fmax - 2, vlib.LEVELS[lvl]["resp"] + 2}
+            for w in range(64, fmax, 64):
+                vals |= {w - 1, w, w + 1}
+            vals |= {5 + rng.below(fmax - 6) for _ in range(40)}
+            vals = {e for e in vals if 2 <= e <= fmax}
+        else:
+            vals = {fmax, fmax - 1, 2, 3, 4, 5, 8, 16, 5 + rng.below(fmax - 6), 5 + rng.below(fmax - 6)}
     return sorted(vals)
 
 
@@ -184,7 +194,7 @@ def run_level(ctx, lvl, ncurves, have_driver):
                       dict(level=lvl, ops=[o for o, _ in ops[:i + 1]][-6:], stderr=err[-1500:]))
         return
     cur = curop = E = None
-    B = None; jP = jQ = None; w0 = None
+    B = None; jP = jQ = jPQ = None; w0 = None
     dlog_cases = []     # (e, w, w0, expected or None)
     hist = ctx.coverage.setdefault("classes", {})
     ecov = ctx.coverage.setdefault("e_values_L%d" % lvl, [])
@@ -208,6 +218,7 @@ def run_level(ctx, lvl, ncurves, have_driver):
             d = E.sub(jP, jQ)
             if d is None or d[0] != B[2]:
                 jQ = E.neg(jQ)
+            jPQ = E.add(jP, jQ)
             w0 = None
         elif meta["kind"] == "weil":
             e = meta["e"]; N = 1 << e
@@ -249,7 +260,7 @@ def run_level(ctx, lvl, ncurves, have_driver):
             ctx.case("L%d:%s:e=%d:cob:%s:%x" % (lvl, curop[:24], e, meta["tag"], M[0]))
             if jP is None:
                 continue
-            X = lambda u, v: (lambda R: None if R is None else R[0])(E.add(E.mul(u, jP), E.mul(v, jQ)))
+            X = lambda u, v: (lambda R: None if R is None else R[0])(E.lin2(u, jP, v, jQ, jPQ))
             a, b, c, d = M
             app_ok = (P1 == X(a, c) and Q1 == X(b, d) and D1 == X((a - b) % N, (c - d) % N))
             cob_ok = (r == M or r == [(-x) % N for x in M])
